@@ -248,6 +248,9 @@ def modi_precondition(rep):
         raise AnalysisBroken("bintMod: expected one bintModi(a, bintToULong(b)) call (found %d)" % len(guarded))
     c, cond = guarded[0]
     where = "bigint.c:%d (bintMod)" % c["l"]
+    if cond is not None and cond["k"] == "BinaryOperator" and cond["op"] in (">", ">=") and \
+            any(y.get("callee") == "bintLength" for y in walk(cond["c"][1])):
+        cond = dict(cond, op={">": "<", ">=": "<="}[cond["op"]], c=[cond["c"][1], cond["c"][0]])     # K > len  ==  len < K
     if cond is None or cond["k"] != "BinaryOperator" or cond["op"] not in ("<", "<=") or \
             not any(y.get("callee") == "bintLength" for y in walk(cond["c"][0])):
         raise AnalysisBroken("bintMod: the guard of the single-word path is not `bintLength(b) < / <= constant`")
